@@ -5,8 +5,38 @@ zero-checked expansion, pops with summarisation).  Everything observable is a fu
 -/
 import Rmk.Proofs.ReprBasics
 import Rmk.Proofs.ChunkTree
+import Rmk.Proofs.StepRepr
+import Rmk.Proofs.SerTree
 namespace Rmk.C04
 open Rmk Rmk.Impl Rmk.ReprBasics Rmk.ChunkTreeLemmas
+
+/-- ONE STEP: every mutator of the public interface (element / field assignment, append, pop, bit
+    set, union change; packed and unpacked), applied to a tree that represents `v`, succeeds exactly
+    when the value-level operation is allowed, and then yields a tree that represents the updated
+    value. -/
+theorem step (H : Hash) (t : Ty) (hwf : t.wf = true) (hlim : limitsOk t = true) (v : Val) (n : Node)
+    (hr : Impl.Repr H t v n) (op : Op) :
+    (Impl.apply H t n op = none ↔ Spec.applyOp t v op = none) ∧
+    (∀ n', Impl.apply H t n op = some n' → ∃ v', Spec.applyOp t v op = some v' ∧ Impl.Repr H t v' n') :=
+  ⟨StepRepr.step_none_iff H t hwf hlim v n hr op, fun n' h => StepRepr.step_repr H t hwf hlim v n hr op n' h⟩
+
+/-- EVERY HISTORY: after any finite sequence of mutating operations (failed ones leave the view as
+    it was) the backing tree represents exactly the value the sequence implies, … -/
+theorem history (H : Hash) (t : Ty) (hwf : t.wf = true) (hlim : limitsOk t = true) (ops : List Op)
+    (v₀ : Val) (n₀ : Node) (h : Impl.Repr H t v₀ n₀) :
+    Impl.Repr H t (StepRepr.runSpec t v₀ ops) (StepRepr.runImpl H t n₀ ops) :=
+  StepRepr.history_repr H t hwf hlim ops v₀ n₀ h
+
+/-- … has the spec root of that value, reads back exactly that value, and serialises to exactly its
+    SSZ encoding: it is indistinguishable from a freshly constructed value with that content. -/
+theorem history_observations (H : Hash) (t : Ty) (hwf : t.wf = true) (hlim : limitsOk t = true)
+    (ops : List Op) (v₀ : Val) (n₀ : Node) (h : Impl.Repr H t v₀ n₀) :
+    let v := StepRepr.runSpec t v₀ ops
+    let n := StepRepr.runImpl H t n₀ ops
+    n.root H = Spec.htr H t v ∧ Impl.readVal H t n = some v ∧
+      Impl.serTree H t n = some (Spec.serialize t v, (Spec.serialize t v).length) :=
+  ⟨StepRepr.history_root H t hwf hlim ops v₀ n₀ h, StepRepr.history_read H t hwf hlim ops v₀ n₀ h,
+   SerTree.repr_ser H t _ _ hwf hlim (StepRepr.history_repr H t hwf hlim ops v₀ n₀ h)⟩
 
 /-- whatever its history, a tree that represents `v` has the spec root of `v` (no stale root) -/
 theorem same_root (H : Hash) (t : Ty) (v : Val) (n : Node) (hwf : t.wf = true) (h : Impl.Repr H t v n) :
